@@ -258,7 +258,8 @@ def _gen_value(rng, target, depth=0):
     return ['c', 'KONST']
   if r < 0.68:
     return ['o', rng.choice(sorted(_OBJECTS))]
-  return rng.choice([['i', 0], ['i', -3], ['i', 10**12], ['f', '0.25'], ['f', '-1e-09'], ['b', False],
+  return rng.choice([['i', 0], ['i', 1], ['b', True], ['f', '1.0'], ['f', '0.0'],
+                     ['i', -3], ['i', 10**12], ['f', '0.25'], ['f', '-1e-09'], ['b', False],
                      ['n'], ['s', ''], ['s', "it's"], ['s', 'lorem ipsum ' * 9], ['s', '@fa'],
                      ['t', []], ['l', [['i', 1], ['s', 'two']]]])
 
@@ -340,6 +341,14 @@ def _corner_cases():
   # the value used most recently; a later caller-supplied call does not erase the record
   yield {'via': 'bind', 'bindings': [x1], 'history': [
       call('fa'), dict(b('', 'fa', 'x', ['i', 2]), op='bind'), call('fa'), call('fa', (), [cx])]}
+  # re-binding to a value that COMPARES EQUAL to the recorded one but is a different value
+  # (1 -> True, a reference under another scope): the record must show the new one
+  yield {'via': 'bind', 'bindings': [b('', 'fa', 'x', ['i', 1]), b('', 'fa', 'y', ['r', 'a', 'fb', True])],
+         'history': [call('fa'), dict(b('', 'fa', 'x', ['b', True]), op='bind'),
+                     dict(b('', 'fa', 'y', ['r', 'b', 'fb', True]), op='bind'), call('fa')]}
+  yield {'via': 'bind', 'bindings': [b('', 'fa', 'x', ['b', False]), b('', 'fa', 'y', ['i', 0])],
+         'history': [call('fa'), dict(b('', 'fa', 'x', ['i', 0]), op='bind'),
+                     dict(b('', 'fa', 'y', ['f', '0.0']), op='bind'), call('fa')]}
   # allowlist / denylist / non-literal defaults / keyword-only / REQUIRED default / **kwargs
   yield {'via': 'parse', 'bindings': [b('', 'fr', 'req', ['i', 3]), b('', 'fw', 'a', ['i', 4]),
                                       b('a', 'fk', 'more', ['s', 'kw'])],
